@@ -146,6 +146,11 @@ def check_history(r, outcome):
     if closes:
         need(all(i < closes[0] for i in wire + raw_tx), "after-close")
         need(all(x[0] < closes[0] for x in unsent), "after-close")
+    # the acceptor's association thread (which emits every later notification) must not be started before the
+    # connection-open notification has been delivered: everything it emits must happen-after EVT_CONN_OPEN
+    starts = [i for i, e in enumerate(log) if e[0] == "thread.start"]
+    if starts:
+        need(bool(opens) and opens[0] < starts[0], "open-after-thread-start")
     connects = [i for i, e in enumerate(log) if e[0] == "raw.connect"]
     if r.start_state == "Sta1" and r.user.requestor:
         # requestor: notified open <=> the OS connect succeeded, and right after it
